@@ -745,3 +745,42 @@ def deaccessor(trees):
                     cd.body.append(ast.Pass())
                 n += 1
     return n
+
+
+def deannotate(trees):
+    """type hints have no effect at run time: inside functions `x: T = v` is `x = v` (a bare `x: T` is dropped), and
+    parameter / return annotations are removed.  Class bodies are left alone (dataclass / NamedTuple fields are
+    declared by annotations).  Returns the number of rewrites."""
+    n = [0]
+
+    def fix_body(body):
+        out = []
+        for st in body:
+            if isinstance(st, ast.AnnAssign):
+                n[0] += 1
+                if st.value is None:
+                    continue
+                new = ast.Assign(targets=[st.target], value=st.value)
+                ast.copy_location(new, st)
+                out.append(new)
+                continue
+            for fld in ('body', 'orelse', 'finalbody'):
+                b = getattr(st, fld, None)
+                if isinstance(b, list) and b and isinstance(b[0], ast.stmt) and not isinstance(st, (ast.ClassDef, ast.FunctionDef, ast.AsyncFunctionDef)):
+                    setattr(st, fld, fix_body(b) or [ast.copy_location(ast.Pass(), st)])
+            for h in getattr(st, 'handlers', []) or []:
+                h.body = fix_body(h.body) or [ast.copy_location(ast.Pass(), h)]
+            out.append(st)
+        return out
+    for t in trees:
+        for fn in [x for x in ast.walk(t) if isinstance(x, (ast.FunctionDef, ast.AsyncFunctionDef))]:
+            a = fn.args
+            for arg in a.posonlyargs + a.args + a.kwonlyargs + ([a.vararg] if a.vararg else []) + ([a.kwarg] if a.kwarg else []):
+                if arg.annotation is not None:
+                    arg.annotation = None
+                    n[0] += 1
+            if fn.returns is not None:
+                fn.returns = None
+                n[0] += 1
+            fn.body = fix_body(fn.body) or [ast.copy_location(ast.Pass(), fn)]
+    return n[0]
